@@ -254,7 +254,7 @@ PROPS = {
                 "reserved gap, from a non-zero offset, read-write, some unlinked after mapping; entry point inside the executable, inside a loaded module or "
                 "nowhere; 0 … 2 caller-supplied mappings that cover a module, its first page only, the same range, an enclosing range or an unrelated one. "
                 "The expected list is computed by the model from /proc/<pid>/maps (C13 model), the effective auxiliary vector and the ELF model applied to the "
-                "files (slice mode) and to the memory image rebuilt from the map lines (process mode). Distinct = (#modules, #caller mappings, tag set).",
+                "files (slice mode) and to the memory image rebuilt from the map lines (process mode). Distinct = (#modules, #caller mappings, tag set). Some generated modules have the first 16 bytes of their loaded image overwritten by the target (file intact): identifier and SONAME must come from the file.",
         "expected_tags": ["id.memory", "id.file", "id.none", "id.unusable", "soname.memory", "soname.file", "soname.none", "mapping.nonzero-offset",
                           "mapping.contained", "mapping.uninteresting", "entry.swapped", "entry.first", "entry.unlisted", "users", "version.some", "ref.checked", "ref.unlisted"],
         "theorem_namespace": "Mod.",
@@ -276,8 +276,8 @@ PROPS = {
     "C17": {
         "rule": "live: MemReader::for_virtual_mem / for_file / for_ptrace and the reader without a chosen strategy (MemReader::new, what copy_from_process uses; target ptrace-stopped) on ranges inside, ending exactly at, and crossing the end of "
                 "pattern regions (address-derived fill, every fifth 16-byte block all ones so that words equal to -1 are read; preceded by an unmapped page, with short ranges starting 0 … 8 bytes after it) followed by an unmapped page, a PROT_NONE page or another readable page; lengths 1 … 70000 dense near "
-                "1 … 24 and near page multiples, every alignment mod 8. Distinct = (strategy, neighbour kind, start mod 8, length mod 8, pages, crossing, outcome).",
-        "expected_tags": ["strat.v", "strat.f", "strat.p", "strat.a", "kind.u", "kind.n", "kind.r", "range.inside", "range.atEnd", "range.crossing", "range.atStart", "len.partialWord", "result.err"],
+                "1 … 24 and near page multiples, every alignment mod 8. Distinct = (strategy, neighbour kind, start mod 8, length mod 8, pages, crossing, outcome). Plus reads of more than a thousand pages (1025 … 1050) from a 4.4 MB readable region through all four strategies: result and an FNV checksum of the bytes against the pattern.",
+        "expected_tags": ["strat.v", "strat.f", "strat.p", "strat.a", "read.big", "kind.u", "kind.n", "kind.r", "range.inside", "range.atEnd", "range.crossing", "range.atStart", "len.partialWord", "result.err"],
         "trusted_base": ["kernel semantics of process_vm_readv (needs PROT_READ, page-granular prefix), pread(/proc/pid/mem) and PTRACE_PEEKDATA (FOLL_FORCE: any mapped page; "
                          "a peek fails if any of its 8 bytes is unmapped) — assumptions of the model, validated by these runs only"],
         "assumptions": ["'unreadable' for the file and ptrace strategies means unmapped: they return the real bytes of mapped PROT_NONE pages (not fabricated data)"],
@@ -326,7 +326,7 @@ PROPS = {
         "rule": "live dumps (same generated targets and option combinations as C01): raw streams vs. the harness's own reads of /proc/<tid>/{cmdline,environ,auxv,limits,maps,status} "
                 "and /proc/cpuinfo taken while the target is blocked; memory-info list vs. the memory map through the model; handle descriptors vs. readlink/stat of "
                 "/proc/<pid>/fd; system info vs. the cpuinfo scan model; linker debug stream vs. the synthetic PHDR → PT_DYNAMIC → DT_DEBUG → r_debug → link_map chain the "
-                "target built (reached through caller-supplied auxv values). Distinct = (#map lines, #descriptors, #checks, #threads). A quarter of the live targets are the position-dependent build of the target program (ET_EXEC, load bias 0).",
+                "target built (reached through caller-supplied auxv values). Distinct = (#map lines, #descriptors, #checks, #threads). A quarter of the live targets are the position-dependent build of the target program (ET_EXEC, load bias 0). Targets that keep a file open whose name is not UTF-8 or not ASCII: one handle descriptor per open descriptor, names by the lossy decoder.",
         "expected_tags": ["raw.cmdline", "raw.environ", "raw.auxv", "raw.limits", "raw.maps", "meminfo.checked", "handles.checked", "sysinfo.checked", "dso.checked"],
         "trusted_base": ["the contents of /proc are what the kernel reports (external input)", "procfs-core's maps parser"],
         "assumptions": ["partial: 'as the kernel reports them' is an external input; volatile lines of /proc/<tid>/status (State, TracerPid, context-switch counters, pending signals) are masked"],
